@@ -8,11 +8,11 @@ HERE = os.path.dirname(os.path.dirname(os.path.abspath(__file__)))
 CHECKS = {
  "C01": dict(cat="model_checking", design="3/C01, 2.2",
     technique="explicit enumeration of operation sequences x inputs x modes on the real code (E1), state invariant after every API call",
-    text="Every depth-1 program (operator x operand kinds) on every input vector of the complete interval D(n) for bitlength 2,3 and a boundary lattice for 4/8/16, in plain / true-guard / false-guard modes, over the real scalar fields, plus fixed-point operands, a huge-value lattice (machine-word and field boundaries), depth-2 compositions (every operator as inner operation) and a breadth-first search over operation SEQUENCES to depth 3 (4 thorough) with state merging, mode switches, guarded regions and aborted calls; after every API call all newly emitted constraints are evaluated on the recorded witness. Exhaustive within these bounds; a hint computed wrongly for any operator/kind/mode/boundary value inside the bound is found.",
+    text="Every depth-1 program (operator x operand kinds) on every input vector of the complete interval D(n) for bitlength 2,3 and a boundary lattice for 4/8/16, in plain / true-guard / false-guard modes, over the real scalar fields, plus fixed-point operands, a huge-value lattice (machine-word and field boundaries), depth-2 compositions (every operator as inner operation) and a breadth-first search over operation SEQUENCES to depth 3 (4 thorough) with state merging, mode switches, guarded regions and aborted calls; after every API call all newly emitted constraints are evaluated on the recorded witness. The depth-1 sweep (complete D(2), D(3) thorough, and the huge-value lattice of the backend's own field, i.e. multiples and neighbours of p) is repeated against the REAL snarkjs and zkinterface / bellman / bulletproofs backend modules (their own linear-combination classes, field inverse and modulus). Exhaustive within these bounds; a hint computed wrongly for any operator/kind/mode/boundary value inside the bound is found.",
     note="Trusts the recording backend (validated against pysnark.snarkjsbackend's own trace), Python integer arithmetic, and that inputs outside the explored intervals behave like the boundary lattice."),
  "C04": dict(cat="model_checking", design="3/C04, 2.2",
     technique="explicit enumeration of operation sequences x inputs x modes on the real code (E1), value==wire invariant at every returned object",
-    text="Same enumeration as C01 (incl. fixed-point operands, huge values, depth-2 and the depth-3/4 sequence search) in all four modes (checked, ignore_errors, true guard, false guard); for every secret reachable from every returned object the reported value must be congruent mod p to its linear combination evaluated on the recorded witness.",
+    text="Same enumeration as C01 (incl. fixed-point operands, recomposition from_bits of arbitrary entries, huge values, depth-2, the depth-3/4 sequence search and the sweep on the four REAL backend modules) in all four modes (checked, ignore_errors, true guard, false guard); for every secret reachable from every returned object the reported value must be congruent mod p to its linear combination evaluated on the recorded witness.",
     note="Same trusted base as C01."),
  "C05": dict(cat="model_checking", design="3/C05, 2.2",
     technique="explicit enumeration of operation sequences x inputs on the real code (E1), differential against a plain-Python reference model at every step",
@@ -20,11 +20,11 @@ CHECKS = {
     note="Reference model pv/ops.py (Python int semantics); integer ~ is excluded from the equality oracle (documented n-bit complement); boolean-typed operand combinations that the API does not offer at all are skipped and listed in the evidence."),
  "C02": dict(cat="model_checking", design="3/C02, 2.3",
     technique="exhaustive enumeration of the adversarial prover's witness space per gadget instance (exact enumeration in the real field, cross-validated against brute force in small fields)",
-    text="For every value-returning program (all operators x secret/secret, secret/const, const/secret, unary, selection, boolean combinations, fixed-point operands, secret-index array read/write, 7 depth-2 compositions) and every operand vector of D(n) on which the honest run completes, the operands are pinned and ALL satisfying assignments of the variables the call introduced are enumerated in the real scalar field (bn128 and a second field; bitlength 2-3 quick, 2-4 x three fields thorough). Every result wire must take the honest value in every solution and must not depend on a free variable. The same instances are repeated after a history in which the same call on the same operand OBJECTS first ran inside an untaken branch (history-dependent soundness). The enumerating engine is validated on every run: on the same systems traced over small primes its solution sets must equal those of plain brute force over F_p.",
-    note="Alarm only with a concrete real-field witness re-verified against all recorded constraints. Soundness for bitlengths above 4 is extrapolated (gadgets are uniform in the bitlength). Two genuine defects are listed as known findings with discriminating predicates."),
+    text="For every value-returning program (all operators x secret/secret, secret/const, const/secret, unary, selection, boolean combinations, fixed-point operands, secret-index array read/write, 7 depth-2 compositions) and every operand vector of D(n) on which the honest run completes, the operands are pinned and ALL satisfying assignments of the variables the call introduced are enumerated in the real scalar field (bn128 and a second field; bitlength 2-3 quick, 2-4 x three fields thorough), and at bitlength 17 (quick) / 8, 16, 17, 33, 65 (thorough) on a boundary lattice of operand values (the engine solves bit decompositions jointly by an exact weighted-sum rule, so no 2^w branching). Every result wire must take the honest value in every solution and must not depend on a free variable. The same instances are repeated after a history in which the same call on the same operand OBJECTS first ran inside an untaken branch (history-dependent soundness). The enumerating engine is validated on every run: on the same systems traced over small primes its solution sets must equal those of plain brute force over F_p.",
+    note="Alarm only with a concrete real-field witness re-verified against all recorded constraints. Complete operand intervals only for bitlengths 2..4; wider bitlengths on boundary lattices, with the second operand of division / shift / power kept small. Two genuine defects are listed as known findings with discriminating predicates."),
  "C03": dict(cat="model_checking", design="3/C03, 2.3",
     technique="exhaustive enumeration of witness spaces (exact real-field engine) over all operand vectors of a bounded domain, compared with the run-time check and the documented relation",
-    text="For every assertion/declaration kind (six comparisons x 4 operand-kind combinations, zero/nonzero/positive, explicit widths 0..n+1 for assert_positive and to_bits, range, boolean declarations through four constructors, PackIntMod.unpack) and every operand vector of D(n): satisfiable (all witness choices enumerated; on the system of an unchecked run and on the system of an accepted run re-pinned to the vector) must equal accepted-by-the-checked-call, accepted implies the documented relation, and relation-within-width implies accepted.",
+    text="For every assertion/declaration kind (six comparisons x 5 operand-kind combinations incl. boolean receiver with integer-secret argument, zero/nonzero/positive, explicit widths 0..n+1 for assert_positive and to_bits, range, boolean declarations through four constructors, PackIntMod.unpack) and every operand vector of D(n), plus boundary lattices at bitlength 17 (quick) / 8, 16, 17, 33, 64 (thorough): satisfiable (all witness choices enumerated; on the system of an unchecked run and on the system of an accepted run re-pinned to the vector) must equal accepted-by-the-checked-call, accepted implies the documented relation, and relation-within-width implies accepted.",
     note="Real fields only (small fields wrap around the value domain and are not used for verdicts). Relies on pv.witness.exact, which C02 cross-validates against brute force on every run."),
  "C06": dict(cat="model_checking", design="3/C06, 2.1",
     technique="stateless exhaustive enumeration of programs x all input vectors x modes on the real code, canonical-trace comparison; recorder validated by replaying the same executions against pysnark.snarkjsbackend",
@@ -40,7 +40,7 @@ CHECKS = {
     note="An exception escaping a block-API region without its closing call gives the library no event to act on and is outside what the API can express (such histories are skipped for the block realisations and counted)."),
  "C09": dict(cat="model_checking", design="3/C09, 2.5",
     technique="exhaustive enumeration of generated block programs x all inputs of a small domain, each executed against a native-control-flow twin emitted from the same AST",
-    text="Every program of the grammar assign | if/elif/else | while+breakif | for _range(secret stop, public max) incl. the two-argument form with a public start | lazily evaluated selection; scalar variables and a list-valued variable modified in place (5 secret conditions, loop maxima 2-3, nesting 1 quick / 2 thorough, with explicit ctx= and with local-variable context lookup) is exec-ed twice (oblivious API on secrets, native Python on ints) on all (x,y) in {0..3}^2 (thorough: {-2..4}^2) x b x stop in 0..max: final values equal, recorder satisfied, value==wire, one canonical trace per program over all inputs, guard state clean and block stack empty, stop > max refused under checkstopmax.",
+    text="Every program of the grammar assign | if/elif/else | while+breakif | for _range(secret stop, public max) incl. the two-argument form with a public start | lazily evaluated selection; scalar variables, a list-valued variable modified in place, and variables that start as a plain int / float constant and are assigned integer / fixed-point secrets inside blocks (5 secret conditions, loop maxima 2-3, nesting 1 quick / 2 thorough, with explicit ctx= and with local-variable context lookup) is exec-ed twice (oblivious API on secrets, native Python on ints) on all (x,y) in {0..3}^2 (thorough: {-2..4}^2) x b x stop in 0..max: final values equal, recorder satisfied, value==wire, one canonical trace per program over all inputs, guard state clean and block stack empty, stop > max refused under checkstopmax.",
     note="Public loop bounds/conditions are not in the statement's scope. Twin evaluations that divide by a negative number are skipped (known finding KF-C05-negdiv)."),
  "C10": dict(cat="model_checking", design="3/C10, 2.6",
     technique="exhaustive enumeration of backend-API call sequences (variables x value classes x constraint shapes) on pysnark.snarkjsbackend, files read back by an independent decoder",
@@ -52,7 +52,7 @@ CHECKS = {
     note="Decided modulo the FlatBuffers library: the package is absent from the image, a wire-faithful shim of flatbuffers.Builder (pv/shims/fb) is used; the decoder is written independently from zkinterface.fbs."),
  "C12": dict(cat="model_checking", design="3/C12, 2.6",
     technique="exhaustive enumeration of flat traces and of @subqap call histories on pysnark.qaptools.backend (failing tool stubs), files read back by an independent reader",
-    text="Flat traces (negative / >= p / > 256-bit values, zero and cancelled coefficients) and all call histories of two sub-circuit functions with bodies from a menu of 7 (incl. compound, constant, multiple results and nested calls) x call sequences up to length 3 (4 thorough) x input classes x argument forms (bare wires, two-term combinations, scaled wires): every equation holds mod p on the wire/io files, public values are linked, the per-function files written by the backend's own prove() contain every traced equation in its context, same-named calls have equal equation sets and digests (an inconsistently defined function is reported), distinct equation sets have distinct digests over everything explored, every call has a glue whose paired blocks list all arguments and results in order with equal values and equal rnd1. A sample of histories is replayed in fresh interpreters and must give the same verdicts.",
+    text="Flat traces (negative / >= p / > 256-bit values, zero and cancelled coefficients) and all call histories of two sub-circuit functions with bodies from a menu of 7 (incl. compound, constant, multiple results and nested calls) x call sequences up to length 3 (4 thorough) x input classes x argument forms (bare wires, two-term combinations, scaled wires, single wires that still carry a cancelled or zero-scaled other wire): every equation holds mod p on the wire/io files, public values are linked, the per-function files written by the backend's own prove() contain every traced equation in its context, same-named calls have equal equation sets and digests (an inconsistently defined function is reported), distinct equation sets have distinct digests over everything explored, every call has a glue whose paired blocks list all arguments and results in order with equal values and equal rnd1. A sample of histories is replayed in fresh interpreters and must give the same verdicts.",
     note="The external qaptools executables are replaced by failing stubs; only what pysnark itself writes is checked."),
  "C13": dict(cat="model_checking", design="3/C13",
     technique="exhaustive enumeration of expression trees on each backend's own linear-combination class, linear form compared with the field expression, operands re-inspected after every operation",
@@ -60,15 +60,15 @@ CHECKS = {
     note="libsnark's class is implemented in an absent C++ extension and nobackend is a documented no-op; both are excluded."),
  "C14": dict(cat="model_checking", design="3/C14",
     technique="exhaustive enumeration of fixed-point programs (operators x ordered operand-kind pairs x all representable values of a small interval x resolutions x bitlengths) on the real code, differential against a Fraction reference",
-    text="13 binary operators and 6 assertions x every ordered pair of operand kinds over {fixed-point secret, integer secret, boolean secret, int, float} with at least one fixed-point operand x ALL multiples of 2^-r in [-2-2^-r, 2+2^-r] (thorough: [-4,4]) x resolutions 0..3 x two bitlengths x three fields: the result's representation integer equals exact scaled-integer arithmetic (floor(a*b/2^r), floor(a*2^r/b), Python // and % on the represented numbers, order for comparisons) or the call raises; neg/pos/val()/constructors/assert_range; plus the C01/C04 invariants at every step.",
-    note="** , << , >> and abs are not in the statement's list and are only covered by the completeness/value-wire invariants. Reference: fractions.Fraction."),
+    text="13 binary operators and 6 assertions x every ordered pair of operand kinds over {fixed-point secret, integer secret, boolean secret, int, float} with at least one fixed-point operand x ALL multiples of 2^-r in [-2-2^-r, 2+2^-r] (thorough: [-4,4]) x resolutions 0..3 x two bitlengths x three fields: the result's representation integer equals exact scaled-integer arithmetic (floor(a*b/2^r), floor(a*2^r/b), Python // and % on the represented numbers, order for comparisons) or the call raises; neg/pos/val()/constructors/assert_range and x ** k for k = 0..3 (compared modulo p); plus the C01/C04 invariants at every step.",
+    note="<< , >> and abs are not in the statement's list and are only covered by the completeness/value-wire invariants. Reference: fractions.Fraction."),
  "C15": dict(cat="model_checking", design="3/C15",
     technique="breadth-first search over array access histories on the real code with state de-duplication, compared with a Python list model after every event; witness-space enumeration for uniqueness",
-    text="Arrays 1-D length 1..4 and 2-D 2x2/2x3 with constant / secret / mixed contents; events read and write (constant or secret value) at every index of [-1, len] with secret and public indices (all four combinations for 2-D); all histories to depth 3 (thorough 4; 2-D 2/3) pruned on canonical contents: read values and contents equal the list model, out-of-range raises IndexError, recorder satisfied, value==wire; one canonical trace per history shape over all in-range index tuples; (exact engine, 1-D and 2-D, contents deliberately not affine in the position) with contents and index pinned the read result and every element after a write are unique, and with error checking off an out-of-range index is unsatisfiable - also after a history in which the same index object was first used in an untaken branch.",
+    text="Arrays 1-D length 1..4 and 2-D 2x2/2x3 with constant / secret / mixed contents; events read and write (constant or secret value) at every index of [-1, len] with secret and public indices (all four combinations for 2-D), and for 2-D a secretly read row stored into two other rows (rows must not alias afterwards); all histories to depth 3 (thorough 4; 2-D 2/3) pruned on canonical contents: read values and contents equal the list model, out-of-range raises IndexError, recorder satisfied, value==wire; one canonical trace per history shape over all in-range index tuples; (exact engine, 1-D and 2-D, contents deliberately not affine in the position) with contents and index pinned the read result and every element after a write are unique, and with error checking off an out-of-range index is unsatisfiable - also after a history in which the same index object was first used in an untaken branch.",
     note="Merging states with equal contents and element types is sound because the library's array operations read only values, types and lengths."),
  "C16": dict(cat="model_checking", design="3/C16",
     technique="exhaustive enumeration of widths x bitlengths x values and of packer schemas x all schema values on the real code, plus witness-space enumeration of the enforced width",
-    text="to_bits(w)/from_bits round trip, assert_positive(w), check_positive(w) for every width 0..6 with global bitlength 3/4/6 on every value of [-2, 2^w+1]; with error checking off and all witness choices enumerated the system is satisfiable exactly for 0 <= v < 2^w (check_positive: result forced to the sign). Packing: every schema of the grammar Bool | IntMod(1..5) | List(0..2 items) | Repeat(s, 0..2) to depth 2 x ALL values x {plain, integer-typed secret, boolean-typed secret}: unpack(pack(v)) == v, bitlen() == number of bits, out-of-range plain values rejected.",
+    text="to_bits(w)/from_bits round trip, assert_positive(w), check_positive(w) for every width 0..6 with global bitlength 3/4/6 on every value of [-2, 2^w+1], also after an earlier decomposition of the same object at another width and inside one / two taken branches; widths 8..253 and global bitlengths 16/20/40 (thorough up to 128, three fields) on a boundary lattice (value level and enforced width); with error checking off and all witness choices enumerated the system is satisfiable exactly for 0 <= v < 2^w (check_positive: result forced to the sign). Packing: every schema of the grammar Bool | IntMod(1..5) | List(0..2 items) | Repeat(s, 0..2) to depth 2 x ALL values x {plain, integer-typed secret, boolean-typed secret}: unpack(pack(v)) == v, bitlen() == number of bits, out-of-range plain values rejected.",
     note="Schemas with more than 64 values are not enumerated."),
  "C17": dict(cat="model_checking", design="3/C17",
     technique="exhaustive enumeration of argument/return structures x bodies x call sequences on the real code with the recording backend; witness-space enumeration for the output ties",
@@ -76,15 +76,15 @@ CHECKS = {
     note="Bodies avoid division so that the known quotient finding does not interfere with the uniqueness oracle."),
  "C18": dict(cat="model_checking", design="3/C18, 2.7",
     technique="exhaustive enumeration of termination points (statement position x way of terminating x earlier caught event x autoprove x backend), one fresh interpreter each, compared with a reference function",
-    text="Script template with three tracing statements, stopped before statement 0..3 in 16 ways (fall off the end, sys.exit with no argument/None/0/False/1/2/str/empty str/empty list, uncaught ValueError, KeyboardInterrupt, raise SystemExit(0/1), builtin exit(0/1)), after no / a caught sys.exit(1) / a caught sys.exit(0) / a caught exception, with autoprove on and off, for snarkjs, zkinterface, zkifbellman, qaptools (failing tool stubs) and nobackend: exit status 0 and autoprove => prove() ran exactly once and the decoded artefacts hold exactly the executed statements; otherwise prove() did not run and no artefact exists; the exit hook itself never raises.",
+    text="Script template with three tracing statements, stopped before statement 0..3 in 16 ways (fall off the end, sys.exit with no argument/None/0/False/1/2/str/empty str/empty list, uncaught ValueError, KeyboardInterrupt, raise SystemExit(0/1), builtin exit(0/1)), after no / a caught sys.exit(1) / a caught sys.exit(0) / a caught exception, with autoprove on and off, with and without an exception hook installed by the environment before pysnark is imported, for snarkjs, zkinterface, zkifbellman, qaptools (failing tool stubs) and nobackend: exit status 0 and autoprove => prove() ran exactly once and the decoded artefacts hold exactly the executed statements; otherwise prove() did not run and no artefact exists; the exit hook itself never raises.",
     note="prove() is counted by wrapping backend.prove inside the child script (no change to pysnark). Two genuine defects of the interposition are listed as known findings keyed on the termination mode / caught event."),
  "C19": dict(cat="model_checking", design="3/C19, 2.7",
     technique="exhaustive enumeration of configurations (environment value x pre-imported modules and import order x dependency availability), one fresh interpreter each, compared with a reference selection function",
-    text="PYSNARK_BACKEND in {unset, the 8 registry names, 'bogus', '', 7 near misses of known names} x pre-imports in {none, each registry module, 4 pairs in both orders} x {FlatBuffers, qaptools executables, libsnark extension} each present or absent: the selected name is the pre-imported backend, else the named one (or import fails loudly when it cannot be loaded), else an 'unknown backend' message followed by the first loadable backend in registry order; backend_name identifies the module in effect, the field (get_modulus) and the module that actually receives a probe constraint; the selected backend offers the complete interface.",
+    text="PYSNARK_BACKEND in {unset, the 8 registry names, 'bogus', '', 7 near misses of known names} x pre-imports in {none, each registry module, 9 pairs in both orders: same and different packages, base and derived modules} x {FlatBuffers, qaptools executables, libsnark extension} each present or absent: the selected name is the pre-imported backend (for two: the first loaded in the documented order, a derived module over its base), else the named one (or import fails loudly when it cannot be loaded), else an 'unknown backend' message followed by the first loadable backend in registry order; backend_name identifies the module in effect, the field (get_modulus) and the module that actually receives a probe constraint; the selected backend offers the complete interface.",
     note="libsnark is a stub extension (loadability only); FlatBuffers availability = builder shim on PYTHONPATH or not."),
  "C20": dict(cat="model_checking", design="3/C20",
     technique="exhaustive enumeration of a bounded input space for the hash gadgets on the real code (three fields), differential against an independent plain-integer implementation; parameter selection by process-level enumeration",
-    text="Per field: Poseidon permutation on all states over {0,1,2,p-1}^5 with at most two non-zero entries plus the published input (published x5_254_5 / x5_255_5 vectors reproduced), sponge on all messages of length 0..3 over {0,1,p-1} and longer bit patterns up to 3 blocks with integer-, boolean- and fixed-point-typed inputs, equal constraint counts for equal shapes, completeness and value==wire; padding injectivity on the real padding code for ALL messages up to 9 elements over {0,1}; subset-sum hash on all bit vectors up to length 8 (10) in plain / integer-typed / boolean-typed / mixed form against an independent SHA-512 coefficient derivation; in fresh interpreters, for every way of selecting each backend the parameter table in effect is the one registered for runtime.backend_name or the import fails loudly.",
+    text="Per field: Poseidon permutation on all states over {0,1,2,p-1}^5 with at most two non-zero entries plus the published input (published x5_254_5 / x5_255_5 vectors reproduced), sponge on all messages of length 0..3 over {0,1,p-1} and longer bit patterns up to 3 blocks with integer-, boolean- and fixed-point-typed inputs, equal constraint counts for equal shapes, completeness and value==wire; padding injectivity on the real padding code for ALL messages up to 9 elements over {0,1}; subset-sum hash on all bit vectors up to length 8 (10) in plain / integer-typed / boolean-typed / mixed form against an independent SHA-512 coefficient derivation; a sub-family of the permutation / sponge / subset-sum instances again on the REAL zkinterface backend modules of the three fields; in fresh interpreters, for every way of selecting each backend the parameter table in effect is the one registered for runtime.backend_name or the import fails loudly.",
     note="Reference implementation pv/ref_poseidon.py uses the same constant tables (their derivation is not re-checked; the published vectors pin two of the three)."),
 }
 
